@@ -11,7 +11,7 @@ from .par_common import V
 
 PROP = "C04"
 LEVEL = "exploration"
-TIMEOUT_S = 180.0
+TIMEOUT_S = 600.0
 RULE = ("one run = seeded configuration (as C01) x 1-4 calls on one Parallel object, each call fault-free or with a "
         "fault plan (k failing tasks with distinct exception types/args, input iterator raising at step j, a task "
         "that never completes under timeout=t; flavour G: completions of the aborted call arrive late) x seeded "
@@ -71,8 +71,19 @@ def gen_case(rng):
                     kinds[i] = "fail"
     case["calls"] = [gen_call(rng, case, k) for k in kinds]
     if "never" in kinds:
+        # the caller polls every 10 ms of virtual time until the timeout: keep the legitimate work (and with it the
+        # timeout that must exceed it) short, or a single run costs hundreds of thousands of scheduler steps
+        for c in case["calls"]:
+            c["dur"] = [min(d, 0.3) for d in c["dur"][:14]]
+            c["n"] = min(c["n"], 14)
+            if c.get("fail"):
+                c["fail"] = {k: v for k, v in c["fail"].items() if int(k) < c["n"]} or {"0": ["Boom", "t0"]}
+            if c.get("never"):
+                c["never"] = [min(c["never"][0], c["n"] - 1)]
+            if c.get("iter_fail") is not None:
+                c["iter_fail"] = min(c["iter_fail"], c["n"])
         tot = max(sum(sum(c["dur"]) for c in case["calls"]), 1.0)
-        case["timeout"] = round(2 * tot + rng.choice([1.0, 5.0, 30.0, 300.0]), 3)
+        case["timeout"] = round(2 * tot + rng.choice([1.0, 5.0, 20.0]), 3)
     case["strategy"] = ds.draw_strategy(rng)
     if case.get("timeout") is not None:
         case["strategy"].pop("p_jump", None)      # the timeout oracle bounds simulated time (see C16)
